@@ -11,6 +11,33 @@ def _tmo(tier):
     return T_T if tier == "thorough" else T_Q
 
 
+def _carriers():
+    from contracts import tasks_utils, tasks_resolver, tasks_registry, tasks_entry, tasks_format
+    return {
+        "err_set": lambda root, tier: [tasks_core.CoreTask(root, 7, "err_set", _tmo(tier))],
+        "scopes": lambda root, tier: tasks_resolver.resolver_tasks(root, 2 * _tmo(tier), which=("scopes",)),
+        "utils": lambda root, tier: tasks_utils.util_tasks(root, _tmo(tier)),
+        "is_type": lambda root, tier: tasks_core.core_tasks(root, _tmo(tier), which=("is_type",)),
+        "is_valid": lambda root, tier: tasks_core.core_tasks(root, _tmo(tier), which=("is_valid",)),
+        "descend": lambda root, tier: tasks_core.core_tasks(root, 2 * _tmo(tier), which=("descend",)),
+        "validator_for": lambda root, tier: [t for t in tasks_registry.registry_tasks(root, _tmo(tier)) if t.which == "validator_for"],
+        "best_match": lambda root, tier: [t for t in tasks_entry.entry_tasks(root, _tmo(tier)) if t.which == "best_match"],
+        "resolve_remote": lambda root, tier: tasks_resolver.resolver_tasks(root, 2 * _tmo(tier), which=("resolve_remote",)),
+        "resolve_fragment": lambda root, tier: tasks_resolver.resolver_tasks(root, 2 * _tmo(tier), which=("resolve_fragment",)),
+        "resolve": lambda root, tier: tasks_resolver.resolver_tasks(root, 2 * _tmo(tier), which=("resolve",)),
+        "format_keyword": lambda root, tier: [t for t in tasks_format.format_tasks(root, _tmo(tier)) if t.which == "keyword"],
+    }
+
+
+class _Lazy(dict):
+    def __missing__(self, k):
+        self.update(_carriers())
+        return dict.__getitem__(self, k)
+
+
+CARRIERS = _Lazy()
+
+
 def vocab_table_obligations(repo, tabs, extras_only=False):
     recs = []
     for d in drafts.DRAFTS:
@@ -38,6 +65,7 @@ def vocab_table_obligations(repo, tabs, extras_only=False):
 
 class C01(Spec):
     pid = "C01"
+    carry = ('err_set', 'scopes', 'utils', 'format_keyword')
     level = "proof"
     design_ref = "DESIGN.md section 8 C01"
     trusted = [
@@ -76,6 +104,7 @@ class C01(Spec):
 
 class C03(Spec):
     pid = "C03"
+    carry = ('err_set', 'scopes', 'resolve_remote', 'validator_for')
     level = "proof"
     design_ref = "DESIGN.md section 8 C03"
     trusted = [
@@ -164,6 +193,7 @@ class C09(Spec):
 
 class C10(Spec):
     pid = "C10"
+    carry = ('err_set', 'scopes', 'resolve_fragment', 'resolve_remote')
     level = "proof"
     design_ref = "DESIGN.md section 8 C10"
     trusted = ["meta-lemma (mechanised in the dispatch obligation, stated on paper for nesting): a key outside dom(VALIDATORS) contributes nothing to the structural equation of iter_errors, and no keyword function reads a non-sibling key (R frames), hence inserting such a pair anywhere leaves the errors unchanged",
@@ -244,6 +274,7 @@ VALIDATION_WRITES = [
 
 class C05(Spec):
     pid = "C05"
+    carry = ('err_set', 'scopes', 'utils', 'is_type', 'is_valid', 'descend', 'resolve')
     oos_structure = True
     level = "proof"
     design_ref = "DESIGN.md section 8 C05"
@@ -275,6 +306,7 @@ class C05(Spec):
 
 class C06(Spec):
     pid = "C06"
+    carry = ('scopes', 'utils', 'is_type', 'is_valid')
     oos_structure = True
     level = "proof"
     design_ref = "DESIGN.md section 8 C06"
@@ -403,6 +435,7 @@ def history_standin(root, tier, seed=0, configs=None):
 
 class C07(Spec):
     pid = "C07"
+    carry = ('err_set', 'descend', 'resolve_fragment')
     level = "proof"
     design_ref = "DESIGN.md section 8 C07"
     trusted = [
@@ -528,6 +561,7 @@ def metaschema_ground_obligations(repo):
 
 class C11(Spec):
     pid = "C11"
+    carry = ('err_set', 'scopes', 'is_valid')
     level = "proof"
     design_ref = "DESIGN.md section 8 C11"
     trusted = ["the verdict contracts of iter_errors, descend, is_type, of every keyword function whose keyword occurs in META_d and of equal / uniq are part of this check (the same obligations as C01 / C08), instantiated on paper with the concrete, well-formed META_d as schema and an arbitrary JSON value as instance",
@@ -640,6 +674,7 @@ class C13(Spec):
 
 class C14(Spec):
     pid = "C14"
+    carry = ('resolve_remote',)
     level = "proof"
     design_ref = "DESIGN.md section 8 C14"
     trusted = [
@@ -671,6 +706,7 @@ class C14(Spec):
 
 class C19(Spec):
     pid = "C19"
+    carry = ('validator_for',)
     level = "proof"
     design_ref = "DESIGN.md section 8 C19"
     trusted = ["the file system is an environment function FS(path) in {missing, not JSON, json(v)}; the built-ins are assumed: open() raises OSError(errno=ENOENT) exactly for a missing file, json.load returns v or raises JSONDecodeError, `with file` closes it; _Outputter.load / validation_error / validation_success / parsing_error / filenotfound_error are PROVED against the contract cli.run uses (task cli:outputter)",
@@ -698,6 +734,7 @@ class C19(Spec):
 
 class C20(Spec):
     pid = "C20"
+    carry = ('best_match',)
     level = "proof"
     design_ref = "DESIGN.md section 8 C20"
     trusted = ["URIDict.normalize = urlsplit(uri).geturl() is an uninterpreted function shared by registration and lookup; that it maps `u` and `u#` to the same key is an ASSUMED property of urllib.parse, checked on the four bundled ids by the bounded run",
@@ -897,6 +934,7 @@ def resolver_table_obligations(repo):
 
 class C02(Spec):
     pid = "C02"
+    carry = ('err_set', 'descend')
     level = "proof"
     design_ref = "DESIGN.md section 8 C02"
     trusted = [
@@ -936,6 +974,7 @@ class C02(Spec):
 
 class C15(Spec):
     pid = "C15"
+    carry = ('resolve_fragment',)
     level = "proof"
     design_ref = "DESIGN.md section 8 C15"
     trusted = [
@@ -968,6 +1007,7 @@ class C15(Spec):
 
 class C04(Spec):
     pid = "C04"
+    carry = ('err_set', 'scopes', 'resolve', 'descend', 'validator_for')
     level = "proof"
     design_ref = "DESIGN.md section 8 C04"
     trusted = [
@@ -1008,6 +1048,7 @@ class C04(Spec):
 
 class C08(Spec):
     pid = "C08"
+    carry = ('is_type',)
     level = "proof"
     design_ref = "DESIGN.md section 8 C08"
     KW = ("enum", "const", "uniqueItems")
